@@ -70,6 +70,47 @@ namespace c17
         ob::StateSpacePtr sp_;
     };
 
+    // A user-side objective that is exactly additive along a motion but not a metric: the integral of a piecewise
+    // constant weight over the positional straight line (weight w beyond a cutting plane, 1 before it). A direct
+    // connection can cost more than the stretch of path it would replace, so the cost comparisons of the cost-aware
+    // routines decide something (under plain path length every valid shortcut wins and they are moot), and because
+    // the cost of a motion is the sum of the costs of its pieces, "never worse under their own objective" is exact.
+    class WeightedRegionObjective : public ob::OptimizationObjective
+    {
+    public:
+        WeightedRegionObjective(const world::World *w, int axis, double cut, double weight)
+          : ob::OptimizationObjective(w->si), w_(w), axis_(axis), cut_(cut), weight_(weight)
+        {
+            description_ = "weighted region length";
+        }
+        ob::Cost stateCost(const ob::State *) const override
+        {
+            return identityCost();
+        }
+        ob::Cost motionCost(const ob::State *a, const ob::State *b) const override
+        {
+            double p[3], q[3];
+            w_->pos(a, p);
+            w_->pos(b, q);
+            double L = 0;
+            for (int i = 0; i < w_->pdim; i++)
+                L += (p[i] - q[i]) * (p[i] - q[i]);
+            L = std::sqrt(L);
+            double pa = p[axis_], qa = q[axis_];
+            bool ha = pa >= cut_, hb = qa >= cut_;
+            if (ha == hb)
+                return ob::Cost(L * (ha ? weight_ : 1.0));
+            double t = (cut_ - pa) / (qa - pa);  // fraction of the motion on a's side of the plane
+            t = std::min(1.0, std::max(0.0, t));
+            return ob::Cost(L * (t * (ha ? weight_ : 1.0) + (1.0 - t) * (hb ? weight_ : 1.0)));
+        }
+
+    private:
+        const world::World *w_;
+        int axis_;
+        double cut_, weight_;
+    };
+
     inline Json genOps(sim::Rng &g, bool thorough)
     {
         Json ops = Json::array();
@@ -95,6 +136,13 @@ namespace c17
             op["with_goal"] = g.chance(0.6);
             if (g.chance(0.3))
                 op["fault"] = rngfault::gen(g, 12);
+            // (drawn last) the routine's own objective, when it is given one: path length or the weighted-region integral
+            if (g.chance(0.5))
+            {
+                op["obj_axis"] = (long)g.range(0, 1);
+                op["obj_cut"] = g.pick(std::vector<double>{0.25, 0.5, 0.6, 0.8});
+                op["obj_weight"] = g.pick(std::vector<double>{0.15, 3.0, 6.0, 40.0});
+            }
             ops.push(op);
         }
         return ops;
@@ -321,6 +369,14 @@ namespace c17
             kinds += (kinds.empty() ? "" : "+") + k;
             og::PathGeometric before(*path);
             ob::OptimizationObjectivePtr obj = op.getb("with_objective") ? lengthObj : nullptr;
+            bool regionObj = false;
+            if (obj && op.has("obj_weight") && !c.w->curved)
+            {
+                obj = std::make_shared<WeightedRegionObjective>(c.w.get(), (int)op.geti("obj_axis"), c.w->lo + op.getd("obj_cut") * (c.w->hi - c.w->lo),
+                                                                op.getd("obj_weight"));
+                regionObj = true;
+                res.probes["routine-given-a-non-metric-additive-objective"]++;
+            }
             ob::GoalPtr goal = op.getb("with_goal") ? c.q->pdef->getGoal() : ob::GoalPtr();
             og::PathSimplifier ps(c.w->si, goal, obj);
             unsigned ms = (unsigned)op.geti("max_steps"), me = (unsigned)op.geti("max_empty");
@@ -362,6 +418,7 @@ namespace c17
                 {
                     ps.ropeShortcutPath(*path, op.getd("delta", 1.0), op.getd("tolerance", 0.1));
                     mustNotLengthen = true;
+                    costAware = regionObj;
                 }
                 else if (k == "partialShortcutPath")
                 {
